@@ -82,6 +82,53 @@ ERR_TYPES = {"io": InjectedError, "conn": ConnectionError, "timeout": TimeoutErr
              "value": ValueError, "os": OSError}
 
 
+class _QuietTqdm:
+    """tqdm stand-in (the real one owns a monitor thread and reads the host clock): iterates its argument when
+    it has one, and otherwise accepts the manual protocol (update / close / context manager) silently"""
+
+    def __init__(self, iterable=None, *a, **kw):
+        self._it = iterable
+        self.n = 0
+        self.total = kw.get("total")
+
+    def __iter__(self):
+        return iter(self._it if self._it is not None else ())
+
+    def __len__(self):
+        return len(self._it) if self._it is not None else int(self.total or 0)
+
+    def update(self, n=1):
+        self.n += n
+
+    def close(self):
+        pass
+
+    def refresh(self, *a, **kw):
+        pass
+
+    def set_description(self, *a, **kw):
+        pass
+
+    def set_postfix(self, *a, **kw):
+        pass
+
+    def write(self, *a, **kw):
+        pass
+
+    def __enter__(self):
+        return self
+
+    def __exit__(self, *a):
+        return False
+
+
+class _TqdmModule:
+    """`import tqdm` as seen by the code under test: tqdm.tqdm / tqdm.auto.tqdm / tqdm.trange are quiet"""
+    tqdm = _QuietTqdm
+    auto = type("auto", (), {"tqdm": _QuietTqdm})
+    trange = staticmethod(lambda *a, **kw: _QuietTqdm(range(*a), **kw))
+
+
 class RunDirector(Director):
     def __init__(self, world, record):
         self.w = world
@@ -357,12 +404,18 @@ class World:
         import ocean_science_utilities.filecache.remote_resources as rr
         import ocean_science_utilities.filecache.filecache as fc
         self.co, self.rr, self.fc = co, rr, fc
+        # (a module that no longer imports one of these names simply has nothing to replace there: the library-level
+        # seams below - multiprocessing.pool, concurrent.futures, threading - still hold)
         self._saved = {
-            "ThreadPool": co.ThreadPool, "tqdm": co.tqdm, "requests": rr.requests,
+            "ThreadPool": getattr(co, "ThreadPool", None), "tqdm": getattr(co, "tqdm", None),
+            "requests": getattr(rr, "requests", None),
         }
-        co.ThreadPool = simpool.SimPool
-        co.tqdm = lambda it, **kw: it
-        rr.requests = RequestsShim(self)
+        if self._saved["ThreadPool"] is not None:
+            co.ThreadPool = simpool.SimPool
+        if self._saved["tqdm"] is not None:
+            co.tqdm = _QuietTqdm
+        if self._saved["requests"] is not None:
+            rr.requests = RequestsShim(self)
         import multiprocessing.pool as mpp
         import concurrent.futures as cf
         import concurrent.futures.thread as cft
@@ -376,6 +429,39 @@ class World:
         cf.wait = simpool.sim_wait
         threading.Thread = simpool.SimThread
         fc._ACTIVE_FILE_CACHES.clear()
+        # names the modules bound with "from X import Y" at import time still point at the real objects: rebind
+        # them, whatever they are called there
+        real_tpe, _real_tpe2, real_asc, real_wait, _real_thread = self._saved["cf"]
+        shim = RequestsShim(self)
+        try:
+            import tqdm as _tqdm_mod
+            import tqdm.auto as _tqdm_auto
+            real_tqdms = {id(_tqdm_mod.tqdm), id(_tqdm_auto.tqdm), id(getattr(_tqdm_mod, "trange", None))}
+        except Exception:  # pragma: no cover
+            _tqdm_mod, real_tqdms = None, set()
+        import requests as _real_requests
+        swaps = [(real_tpe, simpool.SimExecutor), (real_asc, simpool.sim_as_completed), (real_wait, simpool.sim_wait),
+                 (self._saved["mpp.ThreadPool"], simpool.SimPool), (_real_requests, shim),
+                 (_real_requests.get, shim.get), (_real_requests.api.get, shim.get), (_real_requests.head, shim.head),
+                 (_real_requests.request, shim.request), (_real_requests.Session, shim.Session),
+                 (_real_requests.session, shim.Session)]
+        self._from_saved = []
+        for m in (co, rr, fc):
+            for name, val in list(m.__dict__.items()):
+                if name.startswith("__"):
+                    continue
+                new = None
+                for real, sim in swaps:
+                    if val is real:
+                        new = sim
+                        break
+                if new is None and id(val) in real_tqdms and val is not None:
+                    new = _QuietTqdm
+                if new is None and _tqdm_mod is not None and val is _tqdm_mod:
+                    new = _TqdmModule
+                if new is not None:
+                    self._from_saved.append((m, name, val))
+                    setattr(m, name, new)
         self._dt_saved = [(m, interpose.patch_datetime_in(m)) for m in (co, rr, fc)]
         self._sync_saved = [(m, simsync.patch_sync_in(m, self._saved["cf"][4])) for m in (co, rr, fc)]
         self.sim_resource = build_sim_resource(self)
@@ -383,12 +469,17 @@ class World:
         self.private_resource = build_sim_resource(self, prefix="sim://", private=True)
 
     def _unpatch_modules(self):
+        for m, name, val in getattr(self, "_from_saved", []):
+            setattr(m, name, val)
         for m, saved in self._dt_saved + self._sync_saved:
             for name, val in saved:
                 setattr(m, name, val)
-        self.co.ThreadPool = self._saved["ThreadPool"]
-        self.co.tqdm = self._saved["tqdm"]
-        self.rr.requests = self._saved["requests"]
+        if self._saved["ThreadPool"] is not None:
+            self.co.ThreadPool = self._saved["ThreadPool"]
+        if self._saved["tqdm"] is not None:
+            self.co.tqdm = self._saved["tqdm"]
+        if self._saved["requests"] is not None:
+            self.rr.requests = self._saved["requests"]
         import multiprocessing.pool as mpp
         import concurrent.futures as cf
         import concurrent.futures.thread as cft
@@ -613,7 +704,21 @@ class World:
         # gzip unless the caller overrides Accept-Encoding) and the object is compressible text (here: odd names)
         accept = (kwargs.get("headers") or {}).get("Accept-Encoding", "gzip, deflate")
         gz = bool(self.knobs.get("http_gzip")) and "gzip" in accept and status == 200
-        return FakeResponse(url, status, body, self, drop_after=drop, gzip_encoded=gz)
+        return FakeResponse(url, status, body, self, drop_after=drop, gzip_encoded=gz,
+                            no_length=bool(self.knobs.get("http_no_length")))
+
+    def http_head(self, url, **kwargs):
+        res = url.split("://", 1)[1].split("/", 1)[1]
+        self.sched("net.req", url, 0)
+        data = self.store.current(res)
+        if data is None:
+            return FakeResponse(url, 404, b"", self)
+        accept = (kwargs.get("headers") or {}).get("Accept-Encoding", "gzip, deflate")
+        gz = bool(self.knobs.get("http_gzip")) and "gzip" in accept
+        r = FakeResponse(url, 200, data, self, gzip_encoded=gz, no_length=bool(self.knobs.get("http_no_length")))
+        r._content = b""
+        r.raw = type(r.raw)(r, b"")
+        return r
 
     def _pp(self, filepath):
         key = self._attribute_key(filepath, None)
